@@ -64,7 +64,8 @@ MUTANTS = [
     ("c07-never-rearm", EVS, "\t\t\t\td.ccZeroed[analog.CCNeg] = false\n\t\t\t} else {\n\t\t\t\td.outputEvents <- midi.ControlChangeEvent(channel, analog.CC, byte(int(float64(127)*adjustedValue)))\n\t\t\t\tif !d.ccZeroed[analog.CCNeg] {\n\t\t\t\t\td.outputEvents <- midi.ControlChangeEvent(channelNeg, analog.CCNeg, 0)\n\t\t\t\t\td.ccZeroed[analog.CCNeg] = true\n\t\t\t\t}\n\t\t\t\td.ccZeroed[analog.CC] = false\n\t\t\t}\n\t\tcase canBeNegative && !analog.Bidirectional:",
      "\t\t\t} else {\n\t\t\t\td.outputEvents <- midi.ControlChangeEvent(channel, analog.CC, byte(int(float64(127)*adjustedValue)))\n\t\t\t\tif !d.ccZeroed[analog.CCNeg] {\n\t\t\t\t\td.outputEvents <- midi.ControlChangeEvent(channelNeg, analog.CCNeg, 0)\n\t\t\t\t\td.ccZeroed[analog.CCNeg] = true\n\t\t\t\t}\n\t\t\t\td.ccZeroed[analog.CC] = false\n\t\t\t}\n\t\tcase canBeNegative && !analog.Bidirectional:", ["C07"]),
     ("c07-learning-threshold", EVS, "if d.ccLearning && !(value < -0.5 || value > 0.5) {", "if d.ccLearning && !(value < -0.5 || value > 0.3) {", ["C07"]),
-    ("c01-notetracker-by-code-only", DEV, "\treturn keyID{subHandler: ev.Source.Name, code: ev.Event.Code}", "\treturn keyID{code: ev.Event.Code}", ["C01", "C02", "C03"]),
+    ("c01-notetracker-by-code-only", DEV, "\treturn keyID{subHandler: ev.Source.Name, event: ev.Source.DeviceInfo.Event(), code: ev.Event.Code}", "\treturn keyID{code: ev.Event.Code}", ["C01", "C02", "C03"]),
+    ("c01-notetracker-by-subhandler-name", DEV, "\treturn keyID{subHandler: ev.Source.Name, event: ev.Source.DeviceInfo.Event(), code: ev.Event.Code}", "\treturn keyID{subHandler: ev.Source.Name, code: ev.Event.Code}", ["C01", "C02", "C03"]),
     ("c01-learning-filter-all-axis-types", EVS, " &&\n\t\t(analog.MappingType == config.AnalogCC || analog.MappingType == config.AnalogPitchBend) {", " {", ["C01"]),
     ("c16-no-watchdog-for-mute-server", "internal/pkg/midi/device/open_rgb.go", "\t\tcase <-time.After(time.Millisecond * 500):\n\t\t\tc.Close()", "\t\tcase <-time.After(time.Hour):\n\t\t\tc.Close()", ["C16"]),
     ("c08-first-event-deduped", EVS, "\tif seen && lastValue == value {", "\tif (seen || !seen) && lastValue == value {", ["C08", "C06"]),
@@ -77,7 +78,7 @@ MUTANTS = [
     ("c18-changed-factory-file-rewritten-in-place", "cmd/hidi/config.go", "\t\tif err := os.Remove(path); err != nil {", "\t\tif err := error(nil); err != nil {", ["C18"]),
     ("c16-led-frame-sent-under-the-event-mutex", "internal/pkg/midi/device/open_rgb.go", "\t\td.eventProcessMutex.Unlock()\n\n\t\tserverCall(func() { err = c.UpdateLEDs(index, ledArray) })", "\t\tserverCall(func() { err = c.UpdateLEDs(index, ledArray) })\n\t\td.eventProcessMutex.Unlock()", ["C16"]),
     ("c17-watchdog-closes-waiting-goroutine", "internal/pkg/midi/device/open_rgb.go", "\t\t\t\tif started != 0 && time.Since(time.Unix(0, started)) > time.Millisecond*500 {", "\t\t\t\tif started >= 0 {", ["C17"]),
-    ("c08-tracker-by-code-only", EVS, "identifier := fmt.Sprintf(\"%s/%d\", ie.Source.Name, ie.Event.Code)", "identifier := fmt.Sprintf(\"%d\", ie.Event.Code)", ["C08"]),
+    ("c08-tracker-by-code-only", EVS, "identifier := fmt.Sprintf(\"%s/%s/%d\", ie.Source.Name, ie.Source.DeviceInfo.Event(), ie.Event.Code)", "identifier := fmt.Sprintf(\"%d\", ie.Event.Code)", ["C08"]),
     ("c08-thresholds-swapped", EVS, "\t\tcase value > -0.49 && value < 0.49:\n\t\t\td.AnalogNoteOff(identifier, ie)", "\t\tcase value > -0.3 && value < 0.3:\n\t\t\td.AnalogNoteOff(identifier, ie)", ["C08"]),
     ("c08-noteoff-current-transposition", DEV, "\tnote, channel := noteAndChannel[0], noteAndChannel[1]\n\n\tevent := midi.NoteEvent(midi.NoteOff, channel, note, 0)",
      "\tnote, channel := noteAndChannel[0], d.channel\n\n\tevent := midi.NoteEvent(midi.NoteOff, channel, note, 0)", ["C08", "C01"]),
